@@ -342,7 +342,68 @@ def r5_fallback_marks_every_local(ctx):
     r4d_bitset_arithmetic_agrees(ctx)
 
 
-RULES = [("C18-R1", r1_skip_path), ("C18-R2", r2_every_cap_compared), ("C18-R2b", r2b_derived_bounds_shape), ("C18-R3", r3_no_plan_runs_everything), ("C18-R3b", r3b_facts_independent_of_plan), ("C18-R4", r4_caps_only_gate_the_analyses), ("C18-R5", r5_fallback_marks_every_local)]
+def r6_budget_charges_growth_only(ctx):
+    """The preflight bound on summary work counts *growth*: each of the F summaries can gain at most F + 2L + 2 entries.  The
+    run-time budget it is compared with must be charged the same way - one event per entry actually added - or a program the
+    preflight admits exhausts the budget half-way (its summaries become unavailable and the analysis results silently vanish,
+    with no resource-limit warning).  In push_unique_bounded the charge is reached only when the item was not there yet."""
+    fn = ctx.lib.fns.get("analysis::summary::push_unique_bounded")
+    if fn is None:
+        ctx.bad("charge|anchor", "", "analysis::summary::push_unique_bounded not found: re-audit how the summary budget is charged")
+        return
+    ctx.touch(fn)
+    charges = [c for c in fn.calls() if (c.callee or "").endswith("SummaryBudget::note_event")]
+    dup = None
+    for S in sorted(fn.live):
+        if fn.blocks[S]["t"]["k"] != "switch":
+            continue
+        si = fn.switch_info(S)
+        if si["kind"] == "call" and (si["callee"] or "").split("::")[-1] in ("contains", "any", "iter_any"):
+            dup = S
+    if not charges or dup is None:
+        ctx.bad("charge|shape", fn.where(), "push_unique_bounded no longer has both a membership test and a budget charge")
+        return
+    for c in charges:
+        if fn.edge_dominated(c.block, dup, [0]):
+            ctx.ok("charge|growth-only", fn.where(c.block), "note_event() only on the path on which the item is new")
+        else:
+            ctx.bad("charge|before-dedupe", fn.where(c.block), "the summary budget is charged before (or regardless of) the membership test: duplicates offered to a summary set cost events too, while the preflight bound counts only growth - call cycles exhaust the run-time budget of a program the preflight admitted, and its analysis is dropped without the resource-limit warning")
+    # and the push happens only after a successful charge
+    pushes = [c for c in fn.calls() if (c.callee or "").endswith("Vec::push")]
+    for c in pushes:
+        if any(fn.dominates(ch.block, c.block) for ch in charges):
+            ctx.ok("charge|push-after-charge", fn.where(c.block), "the entry is added only after the charge succeeded")
+        else:
+            ctx.bad("charge|push-uncharged", fn.where(c.block), "an entry is added to a summary set without charging the budget")
+
+
+def r7_bit_sets_are_sized_in_words(ctx):
+    """A liveness bit set over n locals has ceil(n / 64) words - that is what the liveness event bound prices (one event per
+    word operation) and what the index arithmetic of the helpers needs.  new_bitset asks word_count(n) for its length; n words
+    (one per local) still index correctly but cost 64 times the memory, and programs in the upper half of the liveness limit
+    exhaust the arena instead of being analysed or skipped."""
+    fn = ctx.need("analysis::liveness::new_bitset")
+    ctx.touch(fn)
+    rs = [c for c in fn.calls() if (c.callee or "").split("::")[-1] in ("resize", "resize_with", "from_elem_in", "extend")]
+    if not rs:
+        ctx.bad("bitset-size|shape", fn.where(), "new_bitset no longer sizes its vector with resize")
+        return
+    for c in rs:
+        t = sh(ne(fn.deep(c.args[1]))).replace(" ", "")
+        if re.match(r"^word_count\(\w+\)$", t) or re.match(r"^div_ceil\(\w+,64\)$", t) or re.match(r"^Div\(Add\(\w+,63\),64\)$", t):
+            ctx.ok("bitset-size|words", fn.where(c.block), "length %s" % t)
+        else:
+            ctx.bad("bitset-size|%s" % t[:30], fn.where(c.block), "a liveness bit set is created with `%s` words instead of word_count(n) = ceil(n / 64): each set is up to 64 times larger than the liveness bound assumes, so a program well inside the limit runs the arena out of memory (abort) instead of being analysed" % t)
+    wc = ctx.need("analysis::liveness::word_count")
+    ctx.touch(wc)
+    t = " ".join(sh(ne(wc.deep_rvalue(st["rv"]))) for b in sorted(wc.live) for st in wc.blocks[b]["s"] if st["lhs"]["l"] == 0) + " " + " ".join(sh(ne(wc.deep(c.args[0]))) + c.callee.split("::")[-1] for c in wc.calls())
+    if re.search(r"div_ceil|Div\(Add\(.*63\),\s*64\)|Div\(Add\(.*Sub\(64,1\)\)", t.replace(" ", "")) or ("div_ceil" in " ".join((c.callee or "") for c in wc.calls())):
+        ctx.ok("bitset-size|word_count", wc.where(), "word_count rounds up to whole 64-bit words")
+    else:
+        ctx.bad("bitset-size|word_count-shape", wc.where(), "word_count no longer computes ceil(n / 64) in a recognised form (%s)" % t[:80])
+
+
+RULES = [("C18-R1", r1_skip_path), ("C18-R2", r2_every_cap_compared), ("C18-R2b", r2b_derived_bounds_shape), ("C18-R3", r3_no_plan_runs_everything), ("C18-R3b", r3b_facts_independent_of_plan), ("C18-R4", r4_caps_only_gate_the_analyses), ("C18-R5", r5_fallback_marks_every_local), ("C18-R6", r6_budget_charges_growth_only), ("C18-R7", r7_bit_sets_are_sized_in_words)]
 
 EXPLANATION = (
     "R1: in Resolver::emit_analysis_warnings the preflight count and first_exceeded_limit(.., DEFAULT_CAPS) dominate every "
@@ -355,6 +416,9 @@ EXPLANATION = (
 )
 EXPLANATION += (
     " Added after a seeded change was missed: R4 the analysis limits (fields of AnalysisCaps, DEFAULT_CAPS) are read only by the preflight, the summary budget and the routine that reports the skip; nothing that records resolution facts consults a cap, so an over-limit program is resolved like a smaller one."
+)
+EXPLANATION += (
+    " R6: the summary budget is charged only for growth - in push_unique_bounded the charge is edge-dominated by the 'not yet contained' outcome and the push by the charge - which is what the preflight bound assumes. R7: a liveness bit set has word_count(n) = ceil(n / 64) words, the quantity the liveness bound prices."
 )
 ASSUMPTIONS = ["the only budget preflight is Resolver::emit_analysis_warnings (who-may-call of first_exceeded_limit is checked by the floor)"]
 TRUSTED = ["rustc nightly MIR", "nsx exporter", "nsverif region/edge-dominance computation"]
